@@ -117,7 +117,11 @@ fn body(w: &Workload) -> ExecOut {
         .collect();
     let results: Vec<Vec<String>> = handles.into_iter().map(|h| h.join().unwrap_or_else(|_| vec!["THREAD-PANICKED".into()])).collect();
     // later use: the main thread recomputes everything once more, sequentially
-    let later: Vec<Vec<String>> = w.threads.iter().map(|prog| prog.iter().map(|op| eval::eval(&eval::reference_op(op, &w.prebuilt), None, None)).collect()).collect();
+    let later: Vec<Vec<String>> = w
+        .threads
+        .iter()
+        .map(|prog| prog.iter().map(|op| eval::reference_ops(op, &w.prebuilt).iter().map(|r| eval::eval(r, None, None)).collect::<Vec<_>>().join(" | ")).collect())
+        .collect();
     drop(pre);
     let stats = oh_verif_rt::end_execution().into();
     ExecOut { results, later, stats }
@@ -237,9 +241,10 @@ impl Refs {
         {
             let memo = self.memo.read().unwrap();
             for op in w.threads.iter().flatten() {
-                let r = eval::reference_op(op, &w.prebuilt);
-                if !memo.contains_key(&r) && !missing.contains(&r) {
-                    missing.push(r);
+                for r in eval::reference_ops(op, &w.prebuilt) {
+                    if !memo.contains_key(&r) && !missing.contains(&r) {
+                        missing.push(r);
+                    }
                 }
             }
         }
@@ -306,7 +311,7 @@ pub fn judge(w: &Workload, ex: &Executed, refs: &Refs, data: &DataFiles) -> Opti
         for (oi, op) in prog.iter().enumerate() {
             let got = out.results.get(ti).and_then(|r| r.get(oi)).cloned().unwrap_or_else(|| "MISSING".into());
             let later = out.later.get(ti).and_then(|r| r.get(oi)).cloned().unwrap_or_else(|| "MISSING".into());
-            let want = refs.get(&eval::reference_op(op, &w.prebuilt)).unwrap_or_else(|| "NO-REFERENCE".into());
+            let want = eval::reference_ops(op, &w.prebuilt).iter().map(|r| refs.get(r).unwrap_or_else(|| "NO-REFERENCE".into())).collect::<Vec<_>>().join(" | ");
             if got.starts_with("CLONE-DIFFERS") {
                 return Some(Fail { class: "clone_differs".into(), detail: format!("thread {ti} op {oi} {op:?}: {got}") });
             }
